@@ -36,7 +36,9 @@ import sys
 
 FILES = ["minidump-processor/src/processor.rs", "minidump-processor/src/process_state.rs", "minidump-processor/src/evil.rs",
          "minidump-processor/src/arg_recovery.rs", "minidump-processor/src/op_analysis.rs", "minidump-processor/src/lib.rs",
-         "minidump-unwind/src/lib.rs", "minidump-unwind/src/symbols/mod.rs", "breakpad-symbols/src/lib.rs",
+         "minidump-unwind/src/lib.rs", "minidump-unwind/src/symbols/mod.rs", "minidump-unwind/src/amd64.rs", "minidump-unwind/src/arm.rs",
+         "minidump-unwind/src/arm64.rs", "minidump-unwind/src/arm64_old.rs", "minidump-unwind/src/mips.rs", "minidump-unwind/src/x86.rs",
+         "minidump-unwind/src/system_info.rs", "breakpad-symbols/src/lib.rs",
          "breakpad-symbols/src/sym_file/walker.rs", "breakpad-symbols/src/sym_file/parser.rs", "breakpad-symbols/src/sym_file/types.rs",
          "breakpad-symbols/src/sym_file/mod.rs"]
 MUTABLE_TY = r"RefCell|\bCell<|Mutex|RwLock|Atomic|OnceLock|OnceCell|Lazy|UnsafeCell"
